@@ -3,7 +3,7 @@
    us q = floor (q * 10^6): whole microseconds of an instant q given in seconds (Q, exact). *)
 From Coq Require Import List ZArith QArith Qround Bool.
 From PV Require Import lib.Sx lib.Str lib.Result lib.Dec.
-From PV Require Import model.TimeRead spec.SpecTime proofs.TimeReadFacts.
+From PV Require Import model.TimeRead spec.SpecTime proofs.TimeReadFacts proofs.TimeDocFacts.
 Import ListNotations.
 Open Scope Z_scope.
 
@@ -80,6 +80,31 @@ Theorem C01_sami_from_strings : forall ps : list sami_p,
 Proof. exact sami_translate_str_exact. Qed.
 Print Assumptions C01_sami_from_strings.
 
+(* ---- whole documents (string level): one caption per non-empty cue, in document order, with the
+   denoted times and the text lines; LF or CRLF, any padding, any number of extra blank lines ---- *)
+Theorem C01_srt_doc_exact : forall crlf cues, forallb srt_cue_dom cues = true ->
+  srt_read (srt_render crlf cues) = read_result (srt_expected_caps cues).
+Proof. exact srt_doc_exact. Qed.
+Print Assumptions C01_srt_doc_exact.
+
+Theorem C01_vtt_doc_exact : forall strict sh crlf cues, forallb vtt_cue_dom cues = true ->
+  (strict = true -> vtt_sorted_from sh 0 cues = true) ->
+  vtt_read strict sh (vtt_render crlf cues) = read_result (vtt_expected_caps sh cues).
+Proof. exact vtt_doc_exact. Qed.
+Print Assumptions C01_vtt_doc_exact.
+
+(* on ordered documents ignore_timing_errors does not change the result *)
+Theorem C01_vtt_validation_transparent : forall sh crlf cues, forallb vtt_cue_dom cues = true ->
+  vtt_sorted_from sh 0 cues = true ->
+  vtt_read true sh (vtt_render crlf cues) = vtt_read false sh (vtt_render crlf cues).
+Proof. exact vtt_validation_transparent. Qed.
+Print Assumptions C01_vtt_validation_transparent.
+
+Theorem C01_mdvd_doc_exact : forall crlf f cues, fps_dom f = true -> forallb mdvd_cue_dom cues = true ->
+  mdvd_read (mdvd_render crlf f cues) = read_result (mdvd_expected_caps f cues).
+Proof. exact mdvd_doc_exact. Qed.
+Print Assumptions C01_mdvd_doc_exact.
+
 (* ---- non-vacuity ------------------------------------------------------------ *)
 Example C01_ex_srt : srt_to_micro (lit "025:01:02,003") = Ok 90062003000.
 Proof. vm_compute. reflexivity. Qed.
@@ -107,3 +132,19 @@ Example C01_ex_sami :
   sami_translate [(1000, true); (2000, false); (5000, true); (6000, true)]
   = [(1000000, 2000000); (5000000, 6000000); (6000000, 10000000)].
 Proof. vm_compute. reflexivity. Qed.
+Example C01_ex_srt_doc :
+  let doc := [mkSrtCue 1 (mkSrt 1 0 0 1 (Some 0)) (mkSrt 0 25 0 2 None) [lit "hello"; lit "world"] 1;
+              mkSrtCue 2 (mkSrt 0 99 59 59 (Some 999)) (mkSrt 0 100 0 0 (Some 1)) [lit "42"] 0] in
+  forallb srt_cue_dom doc = true /\
+  srt_read (srt_render true doc) = Ok [(1000000, 90002000000, [lit "hello"; lit "world"]); (359999999000, 360000001000, [lit "42"])].
+Proof. vm_compute. split; reflexivity. Qed.
+Example C01_ex_mdvd_doc :
+  let cues := [mkMc 0 201 2 203 [lit "a"; lit "b"]; mkMc 0 300 0 400 [[]]] in
+  fps_dom (Some (mkFps 0 23 [9; 7; 6])) = true /\ forallb mdvd_cue_dom cues = true /\
+  mdvd_read (mdvd_render false (Some (mkFps 0 23 [9; 7; 6])) cues) = Ok [(8383383, 8466800, [lit "a"; lit "b"])].
+Proof. vm_compute. repeat split; reflexivity. Qed.
+Example C01_ex_vtt_doc :
+  let cues := [mkVttCue (Some (lit "id1")) (mkVtt None 0 1 0) (mkVtt (Some (0%nat, 100)) 0 0 5) (Some (lit "align:start")) [lit "x"] 2] in
+  forallb vtt_cue_dom cues = true /\ vtt_sorted_from (-500) 0 cues = true /\
+  vtt_read true (-500) (vtt_render false cues) = Ok [(500000, 359999505000, [lit "x"])].
+Proof. vm_compute. repeat split; reflexivity. Qed.
